@@ -45,14 +45,18 @@ Hooks      == {"time", "str", "fields"}
 Entries    == {"lazy", "plain"}              \* Trace/Debug take a generator, the others fields
 
 \* which logger (sink prefix) serves a tag under a live configuration
+\* (configuration "N" declares appenders only: no logger section at all, everything is served by the built-in root)
 Serve(c, t) == CASE c = "A" /\ t = T1 -> "A.ha"
                  [] c = "A"           -> "console"
+                 [] c = "N"           -> "console"
                  [] c = "B" /\ t = T1 -> "B.hb"
                  [] OTHER             -> "B.ha"       \* T2, T3 via the wildcard
 \* which logger a handle name denotes under a live configuration ("" = not configured)
 Named(c, h) == CASE c = "A" /\ h = H1 -> "A.ha"
                  [] c = "A" /\ h = HR -> "console"
                  [] c = "A"           -> ""
+                 [] c = "N" /\ h = HR -> "console"
+                 [] c = "N"           -> ""
                  [] c = "B" /\ h = H1 -> "B.ha"
                  [] c = "B" /\ h = H2 -> "B.hb"
                  [] OTHER             -> "B.root"
@@ -82,7 +86,7 @@ RefreshValid(c) ==
        [] phase = "failedLate" ->                      \* silent: accepted or rejected
             /\ Rec("Refresh", c, "any") /\ props' = "?" /\ UNCHANGED <<phase, cfg, tags, handles, hooks>>
        [] NoCfg /\ HandlesKnown(c) ->
-            /\ phase' = "live" /\ cfg' = c /\ props' = c
+            /\ phase' = "live" /\ cfg' = c /\ props' = (IF c = "N" THEN props ELSE c)
             /\ Rec("Refresh", c, "ok") /\ UNCHANGED <<tags, handles, hooks>>
        [] OTHER ->                                     \* a requested handle name is not configured
             /\ phase' = "failedLate" /\ cfg' = "-" /\ props' = "?"     \* fails before or after injection: silent
@@ -165,7 +169,7 @@ Init == /\ phase = "fresh" /\ cfg = "-" /\ tags = {T1, T2} /\ handles = {H1}
         /\ hooks = {} /\ props = "-" /\ hist = <<>>
 
 Next == /\ Len(hist) < MaxLen
-        /\ \/ \E c \in {"A", "B"} : RefreshValid(c)
+        /\ \/ \E c \in {"A", "B", "N"} : RefreshValid(c)
            \/ RefreshBadEarly \/ RefreshBadLate \/ Destroy
            \/ \E e \in Entries, t \in AllTags, L \in Levels :
                  (e = "plain" \/ "LazyLog" \in Ops) /\ Log(e, t, L)
@@ -177,7 +181,7 @@ Spec == Init /\ [][Next]_vars
 
 (******************************* properties ********************************)
 TypeOK == /\ phase \in {"fresh", "live", "failedLate", "destroyed"}
-          /\ cfg \in {"A", "B", "-"} /\ (phase = "live") = (cfg # "-")
+          /\ cfg \in {"A", "B", "N", "-"} /\ (phase = "live") = (cfg # "-")
           /\ tags \subseteq AllTags /\ handles \subseteq AllHandles
 
 \* C16 as action properties over the model itself
